@@ -1,6 +1,7 @@
 import os, re, sys
 sys.path.insert(0, os.path.join(os.path.dirname(os.path.dirname(os.path.abspath(__file__))), 'lib'))
 
+import irb
 OPS = ['prune_graft', 'tokens_prune', 'pop_link', 'split', 'append_child', 'new_parent', 'remove_child', 'chain_append']
 
 META = dict(
@@ -50,6 +51,11 @@ def harnesses(tier):
                        desc='token.c %s from an arbitrary chain satisfying INV; INV re-established, no freed object reachable' % op))
     hs.append(dict(name='c15_enum', src='c15/enum.c', prepare=gen_enum_list, timeout=600, mem_gb=4,
                    desc='published enum ranges vs kMaxTokenTypes / parser.h / arithmetic runs'))
+    LXN = 2 if tier == 'quick' else 3
+    hs.append(dict(name='c15_lexer_spans', src='irb/lexer.c', defs=dict(N=LXN), prepare=irb.prepare_lexer,
+                   unwind_auto=[10 * LXN, 16 * LXN, 25 * LXN, 40 * LXN], timeout=1500 if tier == 'quick' else 6000, mem_gb=10, functional=True,
+                   bounds='every NUL-terminated buffer of 1..%d bytes (all byte values), scan() called until end of input' % LXN,
+                   desc='lexer scan() (IR of the current lexer.c): tokens non-empty, contiguous, in order, inside [start, stop]'))
     return hs
 
 CLAIM = dict(
